@@ -230,6 +230,17 @@ def prov_plan(ctx):
     obs.append(Ob(r, "encodation_plan", ok, "encodation_plan = optimize(data, 0, Ascii, symbol_list, enabled_modes)", site=T.span_str(f.thir[fn]["span"]), detail=T.sx_show(e)))
     cw = _fn(f, "GenericDataEncoder::codewords", r)
     sts = T.stmts(f.thir[cw]["body"], {"__noinline__": True})
+    # one planning pass per request: optimize() has exactly two call sites crate-wide, neither inside a loop
+    sites = []
+    for name, b in f.thir.items():
+        if "::tests::" in name or T.canon(name).startswith("encodation::planner::"):
+            continue
+        n_calls = sum(1 for c in T.calls(b["body"]) if T.canon(T.callee_of(c)) == OPT)
+        if n_calls:
+            in_loop = any(T.canon(T.callee_of(c)) == OPT for lp in T.walk(b["body"]) if lp.get("k") == "Loop" for c in T.calls(lp))
+            sites.append((T.canon(name), n_calls, in_loop))
+    want = sorted([("data::encodation_plan", 1, False), (T.canon(cw), 1, False)])
+    obs.append(Ob(r, "optimize-callers", sorted(sites) == want, "planner::optimize() is called once by encodation_plan and once, outside any loop, by the encoder's codewords() - nowhere else", detail=sorted(sites)))
     oc = [(st, x) for st in T.stmt_walk(sts) for ex in T.stmt_exprs(st) for x in T.sx_calls(ex, "shortest_path::optimize")]
     ok = False
     det = None
